@@ -48,6 +48,10 @@ func genC04(e *emitter, tier string, seed uint64) {
 	for sh := 0; sh < shapes; sh++ {
 		k := genKey(r)
 		nIn, nOut := 1+r.n(4), r.n(5)
+		if sh == 8 {
+			nIn, nOut = 3, 1 // shape 8: SINGLE signed at a position with no matching output (FORKID: zero hashOutputs, the
+			// rest of the digest still committed; legacy: the constant 1, nothing committed)
+		}
 		if sh >= 5 && sh <= 7 {
 			nIn, nOut = 3, 3 // shapes 5..7 of every run: three inputs, three outputs, signed position 0, 1, 2 (SINGLE has a
 			// matching output with other outputs before and after it)
@@ -82,6 +86,9 @@ func genC04(e *emitter, tier string, seed uint64) {
 		if sh >= 5 && sh <= 7 {
 			pos = sh - 5
 		}
+		if sh == 8 {
+			pos = 2
+		}
 		if sh < 5 {
 			// the first shapes of every run: the signed input spends an enriched inscription whose OP_RETURN tail is a
 			// push of sh bytes (serialised tails of 1..5 bytes)
@@ -96,7 +103,7 @@ func genC04(e *emitter, tier string, seed uint64) {
 			hasReturn = true
 		}
 		for fi, ft := range flagTypes {
-			if quick && (fi+sh)%3 != 0 && !(sh >= 5 && sh <= 7 && ft.ht&0x1f == 3) {
+			if quick && (fi+sh)%3 != 0 && !(sh >= 5 && sh <= 8 && ft.ht&0x1f == 3) {
 				continue
 			}
 			st := cloneTx(tx)
